@@ -10,14 +10,26 @@ pub uninterp spec fn tc_fails(package: Seq<char>, files: SourceFiles, ifaces: Ma
 pub fn typecheck_single_package(package: &String, files: SourceFiles, deps_interfaces: &StrMap<PackageInterface>, deps_envs: StrMap<GlobalTypeEnv>)
     -> (r: (Tast, PackageExports, PackageInterface, TyperDiagnostics))
     ensures r.1 == tc_exports(package@, files, deps_interfaces@, deps_envs@), r.2 == tc_hir(package@, files, deps_interfaces@, deps_envs@),
-            r.3.errors() == tc_fails(package@, files, deps_interfaces@, deps_envs@),
+            r.3.errors() == tc_fails(package@, files, deps_interfaces@, deps_envs@), r.0 == tc_tast(package@, files, deps_interfaces@, deps_envs@),
 { unimplemented!() }
 #[verifier::external_body] pub fn typer_error(diagnostics: TyperDiagnostics) -> (r: CompilationError) { unimplemented!() }          // CompilationError::Typer { diagnostics }
 #[verifier::external_body] pub fn drop_tast(t: Tast) { unimplemented!() }
-// build only: Core generation — its result plays no part in the interface
-#[verifier::external_body] pub struct CoreGen { _p: u64 }
+pub uninterp spec fn tc_tast(package: Seq<char>, files: SourceFiles, ifaces: Map<Seq<char>, PackageInterface>, envs: Map<Seq<char>, GlobalTypeEnv>) -> Tast;
+// build only: Core generation (compile_match::compile_file) — the Core IR plays no part in the interface, but its ERRORS decide whether the package is accepted:
+// a deterministic function of the environment the exports make and the typed tree, exactly like the whole-program driver's call
+#[verifier::external_body] pub struct Gensym { _p: u64 }
+#[verifier::external_body] pub struct MatchEnv { _p: u64 }                        // the GlobalTypeEnv the dependencies' and the package's own exports are applied to
+pub uninterp spec fn env_of(own: PackageExports, deps: Seq<InterfaceUnit>) -> MatchEnv;
+// `let gensym = Gensym::new(); let mut env = GlobalTypeEnv::new(); for dep in dep_units.iter() { dep.exports.apply_to(&mut env); } interface.exports.apply_to(&mut env);`
+#[verifier::external_body] pub fn match_env(interface: &InterfaceUnit, dep_units: &Vec<InterfaceUnit>) -> (r: (Gensym, MatchEnv)) ensures r.1 == env_of(interface.exports, dep_units@) { unimplemented!() }
+#[verifier::external_body] pub struct CompileDiagnostics { _p: u64 }
+impl CompileDiagnostics { pub uninterp spec fn errors(&self) -> bool; #[verifier::external_body] pub fn has_errors(&self) -> (r: bool) ensures r == self.errors() { unimplemented!() } }
+#[verifier::external_body] pub fn compile_diagnostics_new() -> (r: CompileDiagnostics) ensures !r.errors() { unimplemented!() }          // Diagnostics::new()
+pub uninterp spec fn cm_fails(env: MatchEnv, tast: Tast) -> bool;
 #[verifier::external_body]
-pub fn core_of(package: &String, interface: &InterfaceUnit, dep_units: &Vec<InterfaceUnit>, tast: &Tast) -> (r: Result<CoreFile, CompilationError>) { unimplemented!() }
+pub fn compile_file(env: &MatchEnv, gensym: &Gensym, diagnostics: &mut CompileDiagnostics, tast: &Tast) -> (r: CoreFile)
+    ensures final(diagnostics).errors() == (old(diagnostics).errors() || cm_fails(*env, *tast)) { unimplemented!() }
+#[verifier::external_body] pub fn compile_stage_error(diagnostics: CompileDiagnostics) -> (r: CompilationError) { unimplemented!() }    // CompilationError::Compile { diagnostics }
 // the interface both drivers must produce for these inputs: package, what the type checker exports, its HIR interface, the recorded dependency hashes
 pub open spec fn is_interface_of(u: InterfaceUnit, package: Seq<char>, files: SourceFiles, ifaces: Map<Seq<char>, PackageInterface>, envs: Map<Seq<char>, GlobalTypeEnv>, hashes: DepMap) -> bool {
     u.usable() && u.package@ == package && u.exports == tc_exports(package, files, ifaces, envs) && u.hir_interface == tc_hir(package, files, ifaces, envs) && u.deps == hashes
